@@ -393,7 +393,7 @@ var (
 
 func jitterHooks() *c2.VerifC19Hooks {
 	return &c2.VerifC19Hooks{
-		Now: func(s *c2.Session) time.Time { return fakeNow },
+		Now: func() time.Time { return fakeNow },
 		RandN: func(n int) uint32 {
 			switch n {
 			case 100:
@@ -699,12 +699,17 @@ type countConn struct {
 	sc     *scenT
 	events []evT
 	over   bool
+	sess   *c2.Session
+	ready  chan struct{} // closed once sess is set (right after ConnectContext returned)
 }
 
 func (c *countConn) Connect(x context.Context, a string) (net.Conn, error) {
+	if len(c.events) > 0 {
+		<-c.ready
+	}
 	fakeMu.Lock()
 	idx := len(c.events)
-	s := curSess
+	s := c.sess
 	ev := evT{T: absNs(fakeNow)}
 	if s != nil && idx > 0 {
 		ev.Notice = c2.VerifC19Closing(s)
@@ -748,10 +753,9 @@ func killHooks() *c2.VerifC19Hooks {
 			e2eLastD = n - 1
 			return n - 1
 		},
-		Now: func(s *c2.Session) time.Time {
+		Now: func() time.Time {
 			fakeMu.Lock()
 			defer fakeMu.Unlock()
-			curSess = s
 			return fakeNow
 		},
 		Reset: func(s *c2.Session, w time.Duration) time.Duration {
@@ -782,7 +786,7 @@ func runScenario(sc *scenT, class string) {
 	fakeMu.Lock()
 	fakeNow, curSess = epoch0.Add(time.Duration(sc.T0)), nil
 	fakeMu.Unlock()
-	cc := &countConn{sc: sc}
+	cc := &countConn{sc: sc, ready: make(chan struct{})}
 	p := cfg.Static{C: cc, H: srvAddr, S: time.Duration(sc.K.Sleep), J: 0}
 	if sc.K.Kill != nil {
 		k := sc.K.killTime()
@@ -799,6 +803,8 @@ func runScenario(sc *scenT, class string) {
 	ctx, cancel := context.WithCancel(context.Background())
 	s, err := c2.ConnectContext(ctx, logx.NOP, p)
 	local.UUID = old
+	cc.sess = s
+	close(cc.ready)
 	timedOut := false
 	if err == nil {
 		select {
@@ -962,6 +968,8 @@ type swapConn struct {
 	old, got setT
 	resetsAt [8]int
 	over     bool
+	sess     *c2.Session
+	ready    chan struct{}
 }
 
 func (c *swapConn) profile() cfg.Profile {
@@ -983,8 +991,11 @@ func (c *swapConn) profile() cfg.Profile {
 // Connect #0 initial, #1 stores the new Profile in s.swap (as the MvProfile handler does), #2 is
 // the first Connect after the swap (settings are read), #3 calls Close(), #4 is the notice.
 func (c *swapConn) Connect(x context.Context, a string) (net.Conn, error) {
+	if c.n > 0 {
+		<-c.ready
+	}
 	fakeMu.Lock()
-	idx, s := c.n, curSess
+	idx, s := c.n, c.sess
 	c.n++
 	if idx < len(c.resetsAt) {
 		c.resetsAt[idx] = len(e2eResets)
@@ -1012,7 +1023,7 @@ func runSwapScenario(oldSleep int64, oldJ int, oldKill *int64, oldWork *ruleT, p
 	fakeMu.Lock()
 	fakeNow, curSess, e2eResets, e2eLastD = epoch0.Add(time.Duration(t0)), nil, nil, 0
 	fakeMu.Unlock()
-	cc := &swapConn{pv: pv}
+	cc := &swapConn{pv: pv, ready: make(chan struct{})}
 	dbg("swap scenario old jitter %d profile %+v", oldJ, pv)
 	p := cfg.Static{C: cc, H: srvAddr, S: time.Duration(oldSleep), J: int8(oldJ)}
 	if oldKill != nil {
@@ -1034,6 +1045,8 @@ func runSwapScenario(oldSleep int64, oldJ int, oldKill *int64, oldWork *ruleT, p
 		cancel()
 		panic("harness: swap scenario: connect: " + err.Error())
 	}
+	cc.sess = s
+	close(cc.ready)
 	select {
 	case <-s.Done():
 	case <-time.After(20 * time.Second):
@@ -1144,6 +1157,79 @@ func runSwap() {
 			pv.Jitter = []int{-1, 0, 1, 100, 101}[rng.Intn(5)]
 		}
 		runSwapScenario([]int64{msNs, s60, 1000 * msNs}[rng.Intn(3)], rng.Intn(101), nil, nil, pv, t0, "swap-e2e/random")
+	}
+}
+
+// ------------------------------------------------------------------ the spawn path
+
+type refuseConn struct{ at []int64 }
+
+func (c *refuseConn) Connect(context.Context, string) (net.Conn, error) {
+	fakeMu.Lock()
+	c.at = append(c.at, absNs(fakeNow))
+	fakeMu.Unlock()
+	return nil, errors.New("scripted connect failure")
+}
+
+// runSpawn: connectContextInner with an infoSync block (what LoadContext does for a spawned client,
+// job id 0) whose inherited kill date differs from the Profile's; a counting connector that refuses.
+func runSpawn() {
+	now := int64(2*86400+10*3600) * 1000000000 // Tuesday 10:00:00
+	sec := int64(1000000000)
+	opt := func(v int64) *int64 { return &v }
+	kills := []*int64{nil, opt(now - 7200*sec), opt(now - sec), opt(now), opt(now + sec), opt(now + 7200*sec)}
+	waiting := &ruleT{62, 11, 0, 17, 0} // would make a fresh client sleep for an hour first
+	for _, pk := range kills {
+		for _, ik := range kills {
+			for _, pw := range []*ruleT{nil, waiting} {
+				k := kcfgT{Sleep: 60 * msNs, Kill: pk, Work: pw}
+				fakeMu.Lock()
+				fakeNow, curSess = epoch0.Add(time.Duration(now)), nil
+				fakeMu.Unlock()
+				var ikt time.Time
+				if ik != nil {
+					ikt = epoch0.Add(time.Duration(*ik))
+				}
+				info, err := c2.VerifC19SyncInfo(5*time.Second, 0, ikt, nil)
+				if err != nil {
+					panic("harness: writeDeviceInfo: " + err.Error())
+				}
+				cc := &refuseConn{}
+				p := cfg.Static{C: cc, H: "c19:1", S: time.Duration(k.Sleep), J: 0}
+				if pk != nil {
+					t := k.killTime()
+					p.K = &t
+				}
+				if pw != nil {
+					w := pw.wh()
+					p.A = &w
+				}
+				_, cerr := c2.VerifC19ConnectInner(context.Background(), info, logx.NOP, p)
+				d := k.desc()
+				d["path"] = "spawn (connectContextInner with the parent's infoSync block)"
+				d["now_ns"] = now
+				if ik != nil {
+					d["inherited_kill_ns_since_2023-01-01"], d["inherited_kill"] = *ik, ikt.Format(time.RFC3339Nano)
+				} else {
+					d["inherited_kill"] = "none"
+				}
+				d["connect_instants_ns"] = cc.at
+				d["error"] = fmt.Sprint(cerr)
+				// oracle: the kill date in force after the device info was absorbed is the inherited one
+				if ik != nil {
+					for _, t := range cc.at {
+						if t > *ik {
+							out.Fail("a spawned client dialed although its effective (inherited) kill date had passed", "spawn-connect-after-effective-kill", d)
+						}
+					}
+				}
+				inh := "None"
+				if ik != nil {
+					inh = "(Some " + vh.Z(*ik) + ")"
+				}
+				out.Add(fmt.Sprintf("CSpawn %s %s %s %s", k.coq(), inh, vh.Z(now), vh.ZList64(cc.at)), "spawn/kill-date", ik != nil || pk != nil, d)
+			}
+		}
 	}
 }
 
@@ -1356,6 +1442,7 @@ func runKill() {
 		runScenario(&sc, cl)
 	}
 	runSwap()
+	runSpawn()
 	out.Extra("kill_e2e_scenarios", e2eRuns)
 	runEffective()
 }
